@@ -43,7 +43,16 @@ def qr(target, prog):
 BENCHES = {}
 
 
-def bench(name, models, prog, ports, procs, cap=1, initprog=None, sinks=(), caps=None):
+def srcev(source, prog):
+    """process(action) with an action of event source `source` ("S1", "S2", ...)."""
+    return dict(kind="srcevent", target=source, prog=prog)
+
+
+def srcqr(source, prog):
+    return dict(kind="srcquery", target=source, prog=prog)
+
+
+def bench(name, models, prog, ports, procs, cap=1, initprog=None, sinks=(), caps=None, sources=()):
     models = sorted(models)
     c = {m: cap for m in models}
     c["ORPHAN"] = 4
@@ -51,7 +60,8 @@ def bench(name, models, prog, ports, procs, cap=1, initprog=None, sinks=(), caps
         c.update(caps)
     b = dict(name=name, models=models, cap=c, prog=prog,
              ports={m: ports.get(m, []) for m in models},
-             initprog={m: (initprog or {}).get(m, 0) for m in models}, sinks=list(sinks), procs=procs)
+             initprog={m: (initprog or {}).get(m, 0) for m in models}, sinks=list(sinks), procs=procs,
+             sources=list(sources))
     BENCHES[name] = b
     return b
 
@@ -104,6 +114,17 @@ bench("qpartial", ["A", "B", "C", "D"],
             [NOP]],                                                                   # 2 (replier)
       ports={"A": [req(conn("B"), conn("C", "map", delta=0), conn("D"))]},
       procs=[ev("A", 1)])
+
+# Event and query sources of the driver (the scheduler-side broadcasters): several connections per source (plain, map,
+# filter), two connections into the same capacity-1 mailbox so that a sub-send has to wait for space and, for a query,
+# stays pending across several wake-ups.
+bench("sources", ["A", "B"],
+      prog=[[NOP],
+            [NOP]],
+      ports={},
+      sources=[out(conn("A"), conn("B"), conn("B", "map", delta=0), conn("A", "filter", accept=[2], delta=-1)),   # S1
+               req(conn("B"), conn("B", "map", delta=0), conn("A"))],                                              # S2
+      procs=[srcev("S1", 1), srcqr("S2", 1), srcev("S1", 2), srcqr("S2", 2)])
 
 # Saturating loop: A floods B (capacity 1) whose handler answers back to A (capacity 1): the outcome depends
 # on the schedule (completes or deadlocks); governed by the deadlock-report property.
@@ -224,6 +245,8 @@ for who in ("P", "P.a", "P.b", "P.a.x", "Q"):
 def constants(b):
     ports_tla = {m: [[dict(tgt=c["tgt"], mode=c["mode"], accept=set(c["accept"]), delta=c["delta"])
                       for c in p["conns"]] for p in b["ports"][m]] for m in b["models"]}
+    ports_tla["drv"] = [[dict(tgt=c["tgt"], mode=c["mode"], accept=set(c["accept"]), delta=c["delta"])
+                         for c in p["conns"]] for p in b.get("sources", [])]
     lines = [f"c_ModelSeq == {to_tla(b['models'])}",
              f"c_Cap == {to_tla_fn(b['cap'])}",
              f"c_Prog == {to_tla(b['prog'])}",
